@@ -221,6 +221,15 @@ def from_meshio(m,
         # the tag bits refer to the local facets of the cells as stored
         mraw = mesh_type(p, t, sort_t=False, validate=False)
         _boundaries, _subdomains = mraw._decode_cell_data(m.cell_data)
+        # an orientation flag names a row of f2t, which depends on the local
+        # order as well: name the same cell in the mesh that is returned
+        for k, v in _boundaries.items():
+            facets = np.asarray(v)
+            ori = getattr(v, 'ori', None)
+            cells = mraw.f2t[0 if ori is None else ori, facets]
+            ori = 1 * (mtmp.f2t[1, facets] == cells)
+            _boundaries[k] = (OrientedBoundary(facets, ori)
+                              if ori.any() else facets)
         boundaries.update(_boundaries)
         subdomains.update(_subdomains)
 
